@@ -17,6 +17,7 @@ import (
 	"go/printer"
 	"go/token"
 	"os"
+	"regexp"
 	"strings"
 )
 
@@ -125,6 +126,40 @@ func tree(e ast.Expr) any {
 		return atom("<call:" + text(x.Fun) + ">")
 	}
 	return atom("<" + fmt.Sprintf("%T", e) + ">")
+}
+
+var tempRx = regexp.MustCompile(`^_v[0-9]+$`)
+
+// alphaTemps renames the compiler-introduced temporaries (_vN) of one top-level declaration by BINDING: every declared temporary
+// gets the number of its declaration in source order (go/parser's object resolution tells which declaration an occurrence
+// refers to), so that two translations that differ only in the numbers the temporaries carry - including two temporaries that
+// carry the same number in one of them, one shadowing the other - print identically.  Unresolved occurrences keep a number per name.
+func alphaTemps(n ast.Node) {
+	byObj := map[*ast.Object]int{}
+	byName := map[string]int{}
+	next := 0
+	ast.Inspect(n, func(m ast.Node) bool {
+		id, ok := m.(*ast.Ident)
+		if !ok || !tempRx.MatchString(id.Name) {
+			return true
+		}
+		k := 0
+		if id.Obj != nil {
+			if byObj[id.Obj] == 0 {
+				next++
+				byObj[id.Obj] = next
+			}
+			k = byObj[id.Obj]
+		} else {
+			if byName[id.Name] == 0 {
+				next++
+				byName[id.Name] = next
+			}
+			k = byName[id.Name]
+		}
+		id.Name = fmt.Sprintf("_v%d", k)
+		return true
+	})
 }
 
 func fieldTypes(fl *ast.FieldList) []string {
@@ -255,8 +290,10 @@ func main() {
 					kind = "method"
 					name = text(x.Recv.List[0].Type) + "." + name
 				}
+				alphaTemps(x)
 				enc.Encode(map[string]any{"kind": kind, "name": name, "text": text(x)})
 			case *ast.GenDecl:
+				alphaTemps(x)
 				for _, sp := range x.Specs {
 					switch s := sp.(type) {
 					case *ast.TypeSpec:
